@@ -10,6 +10,8 @@ package system
 // element of the batch; every dequeued completion has its callback invoked exactly once.
 //@ func (*System).Tick
 //@ props C12 C15
+// library calls without a model (logging helpers) yield arbitrary values instead of ending the path
+//@ abstract-calls external
 //@ nopanic C13
 //@ records tick
 //@ funcvalue DequeueCQE.*\.Callback$ records cqe_callback
